@@ -375,12 +375,16 @@ def run(chk):
         ez = v.fn("tLweSymEncryptZero")
         zps, _ = summ.pieces(v, ez, hooks=NOINLINE)
         zr, za, zk = [p["n"] for p in ez.params]
-        nst = [p for p in zps if p["kind"] == "store" and p["val"][0] == "call" and p["val"][1] == "gaussian32"]
-        okz = len(nst) == 1 and len(nst[0]["loops"]) == 1 and (nst[0]["loops"][0]["lo"], nst[0]["loops"][0]["cmp"], nst[0]["loops"][0]["hi"]) == (
-            ZERO, "<", sym.arrow(P(zk, "params"), "N")) and nst[0]["val"][2] == (ZERO, sym.sym(za)) and \
-            nst[0]["lv"] == sym.idx(sym.arrow(P(zr, "b"), "coefsT"), nst[0]["loops"][0]["var"])
-        chk.require(okz, "R2", "tLweSymEncryptZero draws an independent Gaussian for each of the N coefficients of b", where=ez.where,
-                    ok="b[j] = gaussian32(0, alpha), j < N", bad=[summ.show_piece(p)[:100] for p in nst], variant=vn)
+        from sa import coverage
+        zfp = summ.forward_local_arrays(zps)          # a draw may reach b through a scratch buffer private to the call
+        stz, detz, nz_ = coverage.filled_by(
+            zfp, sym.arrow(P(zr, "b"), "coefsT"), sym.arrow(P(zk, "params"), "N"),
+            lambda val, ix: None if (val[0] == "call" and val[1] == "gaussian32" and val[2] == (ZERO, sym.sym(za))) else
+            "b[%s] = %s is not gaussian32(0, alpha)" % (sym.show(ix), sym.show(val)[:60]))
+        if stz == "unknown":
+            chk.broken("tLweSymEncryptZero: %s" % detz)
+        chk.require(stz == "proved", "R2", "tLweSymEncryptZero draws an independent Gaussian for each of the N coefficients of b", where=ez.where,
+                    ok="b[j] = gaussian32(0, alpha), j < N (%d statement(s); %s)" % (nz_, detz), bad=detz, variant=vn)
         # ---------------- R3 masks
         uni = v.statics.get("uniformTorus32_distrib")
         okb = False
@@ -396,23 +400,35 @@ def run(chk):
             ps, _ = summ.pieces(v, f, hooks=NOINLINE)
             r = f.params[0]["n"]
             ky = f.params[-1]["n"]
-            ms = [p for p in ps if p["kind"] == "store" and p["lv"][0] == "idx" and p["lv"][1] == P(r, "a") and not p.get("byref")]
-            ok = len(ms) == 1 and len(ms[0]["loops"]) == 1 and (ms[0]["loops"][0]["lo"], ms[0]["loops"][0]["cmp"], ms[0]["loops"][0]["hi"]) == (
-                ZERO, "<", sym.arrow(P(ky, "params"), "n")) and ms[0]["op"] == "=" and ms[0]["val"][0] in ("call", "obj") and "operator()" in ms[0]["val"][1] \
-                and ("glob", "uniformTorus32_distrib") in [sym.root_of(a) if a[0] == "addr" else a for a in ms[0]["val"][2]] + list(ms[0]["val"][2]) \
-                and ("glob", "generator") in list(ms[0]["val"][2])
-            chk.require(ok, "R3", "%s assigns every mask coefficient a fresh uniformTorus32 draw" % name, where=f.where,
-                        ok="a[i] = uniformTorus32_distrib(generator), i < n, inside the encryption",
-                        bad="%s (every coefficient must be drawn from uniformTorus32_distrib with the process generator itself)" % [summ.show_piece(p)[:120] for p in ms], variant=vn)
+            def fresh_uniform(val, ix):
+                while val[0] == "cast":
+                    val = val[2]
+                if val[0] in ("call", "obj") and "operator()" in val[1] and \
+                        ("glob", "uniformTorus32_distrib") in [sym.root_of(a) if a[0] == "addr" else a for a in val[2]] + list(val[2]) \
+                        and ("glob", "generator") in list(val[2]):
+                    return None
+                return "a[%s] = %s is not a draw from uniformTorus32_distrib with the process generator itself" % (sym.show(ix), sym.show(val)[:80])
+            ms = [p for p in summ.forward_local_arrays(summ.forward_stored_calls(ps)) if not p.get("byref")]
+            stm, detm, nm_ = coverage.filled_by(ms, P(r, "a"), sym.arrow(P(ky, "params"), "n"), fresh_uniform)
+            if stm == "unknown":
+                chk.broken("%s: mask statements: %s" % (name, detm))
+            chk.require(stm == "proved", "R3", "%s assigns every mask coefficient a fresh uniformTorus32 draw" % name, where=f.where,
+                        ok="a[i] = uniformTorus32_distrib(generator), i < n, inside the encryption (%d statement(s); %s)" % (nm_, detm),
+                        bad="%s (every coefficient must be drawn from uniformTorus32_distrib with the process generator itself)" % detm, variant=vn)
         tu = v.fn("torusPolynomialUniform")
         tps, _ = summ.pieces(v, tu, hooks=NOINLINE)
         r = tu.params[0]["n"]
-        ms = [p for p in tps if p["kind"] == "store" and p["loops"] and not p.get("byref")]
-        ok = len(ms) == 1 and summ.visits(ms[0]["loops"][0], ZERO, P(r, "N")) and \
-            ms[0]["lv"] == sym.idx(P(r, "coefsT"), ms[0]["loops"][0]["var"]) and "operator()" in str(ms[0]["val"][1]) and \
-            ("glob", "uniformTorus32_distrib") in ms[0]["val"][2]
-        chk.require(ok, "R3", "torusPolynomialUniform draws all N coefficients from uniformTorus32", where=tu.where, ok="coefsT[i] = uniformTorus32_distrib(generator), i < N",
-                    bad=[summ.show_piece(p)[:120] for p in ms], variant=vn)
+        def uniform_draw(val, ix):
+            while val[0] == "cast":
+                val = val[2]
+            if val[0] in ("call", "obj") and "operator()" in str(val[1]) and ("glob", "uniformTorus32_distrib") in val[2]:
+                return None
+            return "coefsT[%s] = %s is not a uniformTorus32 draw" % (sym.show(ix), sym.show(val)[:80])
+        stt, dett, nt_ = coverage.filled_by([p for p in tps if not p.get("byref")], P(r, "coefsT"), P(r, "N"), uniform_draw)
+        if stt == "unknown":
+            chk.broken("torusPolynomialUniform: %s" % dett)
+        chk.require(stt == "proved", "R3", "torusPolynomialUniform draws all N coefficients from uniformTorus32", where=tu.where,
+                    ok="coefsT[i] = uniformTorus32_distrib(generator), i < N (%d statement(s); %s)" % (nt_, dett), bad=dett, variant=vn)
         us = [p for p in zps if p["kind"] == "call" and p["name"] == "torusPolynomialUniform"]
         ok = len(us) == 1 and len(us[0]["loops"]) == 1 and (us[0]["loops"][0]["lo"], us[0]["loops"][0]["cmp"], us[0]["loops"][0]["hi"]) == (
             ZERO, "<", sym.arrow(P(zk, "params"), "k")) and us[0]["args"][0] == sym.addr(sym.idx(P(zr, "a"), us[0]["loops"][0]["var"]))
